@@ -55,9 +55,24 @@ class QuotientWorld(Scenario):
             # library default hash (32-bit FNV-1a): the universe is what the harness's own FNV-1a gives for the keys
             n = len(cfg["uni"])
             cfg.update({"default_hash": True, "keyed": True, "uni": [own_fnv1a32(seams.key_of(i)) for i in range(n)]})
+        tier = os.environ.get("DSIM_TIER")
         if cfg.get("default_hash"):
             pass
-        elif os.environ.get("DSIM_TIER") == "thorough" and rng.chance(1, 5):
+        elif self.allow_big and rng.chance(1, 30 if tier != "thorough" else 15):
+            # wide tables: remainders of 9..16 bits (quotient 16..23) are stored with another array type code
+            # (quotient >= 24: 8-bit remainders, thorough tier only - 16M slots)
+            q = rng.choice((15, 16, 16, 17, 20)) if not (tier == "thorough" and rng.chance(1, 12)) else 24
+            r = 32 - q
+            size = 1 << q
+            pool = [0, 1, (1 << r) - 1, 1 << (r - 1), (1 << (r - 1)) + 1, (1 << (r - 1)) - 1]
+            uni = set()
+            base = rng.below(size)
+            while len(uni) < rng.between(6, 16):
+                quo = (base + rng.below(3)) % size if rng.chance(2, 3) else size - 1 - rng.below(2)
+                uni.add((quo << r) | (rng.choice(pool) if rng.chance(3, 4) else rng.below(1 << r)))
+            cfg.update({"q": q, "uni": sorted(uni), "big": True, "auto_expand": rng.chance(1, 2), "mlf": 0.85,
+                        "steps": rng.between(5, 25), "avoid_full": True, "keyed": False})
+        elif tier == "thorough" and rng.chance(1, 5):
             # larger tables and longer histories in the thorough tier
             q = rng.choice((6, 7, 8))
             r = 32 - q
@@ -91,6 +106,11 @@ class QuotientWorld(Scenario):
         r = rng.below(100)
         present = sorted(self.model)
         api = "key" if cfg["keyed"] and rng.chance(1, 2) else "alt"
+        if not present and not cfg.get("big") and rng.chance(1, 4):
+            # merge into an EMPTY receiver (same or other quotient), then both filters go on living
+            return {"op": "merge", "q": self.f.quotient if rng.chance(2, 3) else rng.between(3, 6),
+                    "items": [rng.below(U) for _ in range(rng.between(1, 6))],
+                    "poke": [rng.below(U) for _ in range(rng.between(1, 3))]}
         if r < 55 or not present:
             return {"op": "add", "i": rng.below(U), "api": api}
         if r < 80:
@@ -106,13 +126,20 @@ class QuotientWorld(Scenario):
                 h = rng.choice(present2)
                 return {"op": "remove", "i": cfg["uni"].index(h), "api": api}
             return {"op": "add", "i": rng.below(U), "api": api}
+        if cfg.get("big"):
+            if r < 90:
+                return {"op": "add", "i": rng.below(U), "api": "alt"}
+            if self.f.quotient < 18:
+                return {"op": "resize", "q": self.f.quotient + 1}
+            return {"op": "add", "i": rng.below(U), "api": "alt"}
         if r < 87:
             return {"op": "resize", "q": rng.between(3, min(Q_MAX, self.f.quotient + 2))}
         if r < 90:
             return {"op": "resize", "q": None}
         if r < 95:
             n = rng.between(1, 6)
-            return {"op": "merge", "q": rng.between(3, 6), "items": [rng.below(U) for _ in range(n)]}
+            return {"op": "merge", "q": self.f.quotient if rng.chance(1, 2) else rng.between(3, 6),
+                    "items": [rng.below(U) for _ in range(n)], "poke": [rng.below(U) for _ in range(rng.between(1, 3))]}
         if r < 98:
             return {"op": "auto", "v": rng.chance(1, 2)}
         return {"op": "mlf", "v": rng.choice((0.5, 0.7, 0.85, 1.0))}
@@ -150,8 +177,10 @@ class QuotientWorld(Scenario):
 
     def call(self, fn, what, sig=None):
         """Run a public call under the step budget.  Returns (status, value)."""
+        # a full scan costs ~15 line events per slot: the budget grows with the table (legitimate work), not with the data
+        budget = BUDGET + 60 * max(self.f.size, 1 << (self.f.quotient + 1))
         try:
-            v = self.ls.run(fn, budget=BUDGET)
+            v = self.ls.run(fn, budget=budget)
             if self.ls.n > self.max_lines:
                 self.max_lines = self.ls.n
             return "ok", v
@@ -159,7 +188,7 @@ class QuotientWorld(Scenario):
             self.ctx.fault("budget_exceeded")
             s = dict(sig or {})
             s.update(self.full_sig())
-            raise Violation("hang", f"{what} did not return within {BUDGET} library line events "
+            raise Violation("hang", f"{what} did not return within {budget} library line events "
                                     f"(size {self.f.size}, {len(self.model)} stored)", s)
         except (Violation, HarnessError):
             raise
@@ -196,6 +225,7 @@ class QuotientWorld(Scenario):
         return rows
 
     # ------------------------------------------------------------------ apply
+    allow_big = False  # wide tables (quotient 15..24): only where the oracle avoids full scans per step (C04)
     try_refusals = False  # C14/C19: also issue adds that must be refused (full table), then re-check their oracle
     hang_is_violation = False  # termination is C04's clause; elsewhere a call that does not return ends the run's claim
 
@@ -265,7 +295,7 @@ class QuotientWorld(Scenario):
         elif op == "resize":
             q2 = step["q"]
             target = q2 if q2 is not None else f.quotient + 1
-            if target > Q_MAX + 2 or target < 3:
+            if (target > Q_MAX + 2 and not cfg.get("big")) or target < 3 or target > 18:
                 return "skip"
             if len(self.model) >= (1 << target):
                 return "skip"  # legitimately refused
@@ -289,9 +319,19 @@ class QuotientWorld(Scenario):
             second = self.QF(quotient=step["q"], auto_expand=True, hash_function=self.hf)  # None = library default
             for h in items:
                 second.add_alt(h)
+            before2 = sorted(second.get_hashes())
             st, v = self.call(lambda: f.merge(second), "merge")
             if st == "ok":
                 self.model |= set(items)
+                # the two filters live on independently: updating the merged-in one must not show in the receiver
+                # (observe() below compares the receiver with the model), and merge must not have changed it
+                if sorted(second.get_hashes()) != before2:
+                    raise Violation("merge_modified_operand", "merge() changed the filter that was merged in", self.full_sig())
+                for h in step.get("poke", []):
+                    if h < len(uni):
+                        second.add_alt(uni[h])
+                for h in before2[:2]:
+                    second.remove_alt(h)
             ctx.fault("merge")
         elif op == "auto":
             f.auto_expand = step["v"]
